@@ -3,8 +3,8 @@
 The verified text is the text of /repo, copied byte for byte, with
   * annotations inserted (contracts, invariants, proof blocks, ghost lets, type
     ascriptions) -- these never change an executable token, and
-  * a small fixed list of mechanical rewrites of executable text (rules R1..R7,
-    see DESIGN.md 2.2); every application is logged (rule, file, line, before, after).
+  * a small fixed list of mechanical rewrites of executable text (rules R1..R17,
+    see DESIGN.md 2.2 and 14.3); every application is logged (rule, file, line, before, after).
 
 Anything this module cannot find where the sidecar expects it raises LostAnchor, which
 the driver turns into exit 2 (undecided) -- never into an alarm.
